@@ -30,7 +30,7 @@ def gen(rng, with_pump):
         have = [l for l in LOCALS if (ns, l) in defined]
         if r < 0.15 or ns is None:
             globs += 1
-            g = "Glob%d" % globs
+            g = rng.choice(["Glob%d", "Glob%d", "_Glob%d", "_g%d", "G_%d_", "__%d"]) % globs      # names may start (and end) with an underscore
             k = rng.random()
             if with_pump and k < 0.3:
                 lines.append(("mkglob %s" % g, ns)); ns = g
@@ -48,7 +48,7 @@ def gen(rng, with_pump):
                 lines.append(("%s:" % g, ns)); ns = g
         elif r < 0.27 and fresh:
             l = rng.choice(fresh); lines.append(("%s:" % l, ns)); defined.add((ns, l))
-        elif r < 0.30 and ns is not None and ns.startswith("Glob") and (ns, "@undef") not in defined:
+        elif r < 0.30 and ns is not None and "Stru" not in ns and (ns, "@undef") not in defined:
             # removing the current global label's own symbol does not end the scope it opened
             lines.append(("@undef %s" % ns, ns)); defined.add((ns, "@undef"))
         elif r < 0.315 and have:
@@ -76,7 +76,7 @@ def gen(rng, with_pump):
             lines.append(("@db @isdef %s" % loc, ns))
         elif r < 0.93:
             structs += 1
-            sn = "Stru%d" % structs
+            sn = rng.choice(["Stru%d", "Stru%d", "_Stru%d"]) % structs
             if rng.random() < 0.5:
                 body = "@struct %s\n  fa 2\n  fb .fa + 3\n  fc @sizeof .fb\n@endstruct" % sn
                 lines.append((body, ("STRUCT", sn, ns)))
